@@ -50,6 +50,10 @@ CHECKS['C16'] = dict(engine='W-sweep', level='fault_enumeration', design='5/C16'
    text='per scenario (a seeded set of savable values written as LPC source: int64 extremes, integral/tiny/huge floats, strings over escape-worthy bytes, nested arrays/mappings/classes, empty containers, shared sub-values, object references, static variables) the fault-free run checks save_variable/restore_variable and save_object/restore_object round trips with a deep LPC comparison; then one simulated run per crash point of a second save over an existing good save file (the simulated disk fails every mutating file call from call n on, all n: the surviving file must be the old one byte for byte or a complete new one, and must restore) and one run per damaged text (truncations and structural-character replacements spread over each save text and each value text) restored with restore_object/restore_variable, which must return or raise an LPC error with sanitizers clean. Crash points are enumerated per scenario; values and damage positions are sampled.',
    note='crash = process crash at a file-call boundary (every stdio flush is a visible call through fopencookie); power-loss reordering not modelled; strings restricted to 7-bit bytes (the driver treats strings as UTF-8)',
    technique='deterministic simulation with fault injection (simulated file layer with crash points at every mutating call, damaged stored text)')
+CHECKS['C15'] = dict(engine='W-loop', level='exploration', design='5/C15',
+   text='seeded search over file-efun call sequences (read/write/remove/rename/copy/link/list/stat/size/bytes/buffer/tail/save/restore/dump efuns, load/clone/find_object, #include, inherit) with path strings from an attack grammar while the master answers every valid_read/valid_write from a seeded script (deny, allow, rewrite to a legal or hostile path, junk, raise an error); the simulated file layer logs every libc file call made while an efun runs, and the oracle checks at that seam that no opened or modified path is absolute or has a .. component, that a file efun touches only paths the master approved for this very call (after the documented leading-slash strip; directory entries and the save temp file of an approved path count), and that a denied call touches nothing. Sampling, not proof.',
+   note='the path alphabet is sampled, not enumerated; ed() is not driven; load_object/#include/inherit are checked for confinement only; an existence probe (stat) on a .. path before load_object rejects the name is observed and not counted as opening',
+   technique='deterministic simulation with fault injection (scripted master answers incl. errors, hostile inputs, invariant checked at the simulated file seam)')
 PENDING = 'check not built yet (work in progress, see DESIGN.md section 10)'
 
 def main():
